@@ -327,13 +327,17 @@ func botTable(r *rand.Rand, st *acStats, hid int, hands int, snapsOut *[]*pokert
 // ----- (2) player runner: auto-play -----
 
 func playerCase(snap *pokertable.Table, playerID string, status int, actionTime int, wait bool, levelUp bool) string {
-	return playerCaseLate(snap, nil, playerID, status, actionTime, wait, levelUp)
+	return playerCaseLate(snap, nil, playerID, status, actionTime, wait, levelUp, "")
 }
+
+// statusPaths: what the application may have told the runner before the request — idle reports (I), a suspension (S), a
+// come-back (R) in some order; where the path leaves the player is for the model's status machine to say
+var statusPaths = []string{"SI", "IS", "II", "III", "SR", "SIR", "SII", "RI", "ISI", "IIR", "SIS", "IRI"}
 
 // playerCaseLate: as playerCase; when late is given, that snapshot — of an *earlier* hand in which the same player was
 // asked something — is delivered right after the current one (updates reach an actor from several goroutines): it is
 // stale and must change nothing about what the runner does for the current hand
-func playerCaseLate(snap, late *pokertable.Table, playerID string, status int, actionTime int, wait bool, levelUp bool) string {
+func playerCaseLate(snap, late *pokertable.Table, playerID string, status int, actionTime int, wait bool, levelUp bool, path string) string {
 	t := safeClone(snap)
 	if t == nil {
 		return ""
@@ -365,11 +369,24 @@ func playerCaseLate(snap, late *pokertable.Table, playerID string, status int, a
 	a.SetAdapter(ad)
 	pr := actor.NewPlayerRunner(playerID)
 	a.SetRunner(pr)
-	switch status {
-	case 1:
-		pr.Idle()
-	case 2:
-		pr.Suspend()
+	if path != "" {
+		for _, c := range path {
+			switch c {
+			case 'I':
+				pr.Idle()
+			case 'S':
+				pr.Suspend()
+			case 'R':
+				pr.Resume()
+			}
+		}
+	} else {
+		switch status {
+		case 1:
+			pr.Idle()
+		case 2:
+			pr.Suspend()
+		}
 	}
 	t0 := time.Now()
 	ad.UpdateTableState(t)
@@ -401,6 +418,9 @@ func playerCaseLate(snap, late *pokertable.Table, playerID string, status int, a
 		}
 	}
 	statusName := []string{"running", "idle", "suspend"}[status]
+	if path != "" {
+		statusName = "path pre=" + path
+	}
 	return fmt.Sprintf("ac player status=%s atime=%d waited=%s lvlup=%s late=%s st=%s gi=%d %s | call=%s delay_ms=%d\n", statusName, actionTime, b01(wait), b01(levelUp), b01(lt != nil), statusShort(t.State.Status), gi, v, res, delay)
 }
 
@@ -869,6 +889,17 @@ func botHumanCase(r *rand.Rand, snap *pokertable.Table, caseNo int) string {
 	time.Sleep(time.Duration(100+r.Intn(200)) * time.Millisecond)
 	again := safeClone(t)
 	again.UpdateSerial++
+	if caseNo%2 == 1 && again.State.GameState.UpdatedAt > 1 {
+		// … or an *older* view of the same hand overtakes (updates fanned out per actor or asynchronously): somebody else is
+		// to act in it. The bot's filter discards it as outdated; the move it is thinking about is the one for the state it
+		// was asked on
+		g := again.State.GameState
+		g.UpdatedAt--
+		for _, p := range g.Players {
+			p.AllowedActions = []string{}
+		}
+		g.Status.CurrentPlayer = (gi + 1) % len(g.Players)
+	}
 	ad.UpdateTableState(again)
 	// the move is due at most one second after the first publication
 	waitFor(1800*time.Millisecond, func() bool {
@@ -1042,6 +1073,9 @@ func runActor(args []string) {
 			}
 			pl := pickPlayer(r, s)
 			line := playerCase(s, pl, r.Intn(3), r.Intn(2), false, r.Intn(2) == 0)
+			if k%4 == 3 {
+				line = playerCaseLate(s, nil, pl, 0, r.Intn(2), false, r.Intn(2) == 0, statusPaths[r.Intn(len(statusPaths))])
+			}
 			w.WriteString(line)
 			st.PlayerCases++
 		}
@@ -1060,10 +1094,14 @@ func runActor(args []string) {
 			if k%3 == 0 {
 				late = earlierAsk(snaps, s, pl)
 			}
-			go func(k int, s, late *pokertable.Table, pl string, status int) {
+			path := ""
+			if k%3 == 1 {
+				path = statusPaths[r.Intn(len(statusPaths))]
+			}
+			go func(k int, s, late *pokertable.Table, pl string, status int, path string) {
 				defer wg2.Done()
-				timed[k] = playerCaseLate(s, late, pl, status, 1, true, k%2 == 0)
-			}(k, s, late, pl, status)
+				timed[k] = playerCaseLate(s, late, pl, status, 1, true, k%2 == 0, path)
+			}(k, s, late, pl, status, path)
 		}
 		wg2.Wait()
 		back := make([]string, 6)
